@@ -139,6 +139,14 @@ func c17Call(name string, v any, win []int) (f *of.MatchField, err error) {
 		return c17CallV(name, x, win, mt)
 	case uint64:
 		return c17CallV(name, x, win, mt)
+	case uint:
+		return c17CallV(name, x, win, mt)
+	case uintptr:
+		return c17CallV(name, x, win, mt)
+	case c17Int16:
+		return c17CallV(name, x, win, mt)
+	case c17Bytes:
+		return c17CallV(name, x, win, mt)
 	case *big.Int:
 		return c17CallV(name, x, win, mt)
 	case []byte:
@@ -255,7 +263,11 @@ func c17CallVM[V constraints.Integer | *big.Int | ~[]byte, M constraints.Integer
 // c17SpareDamage is set by c17Call when the builder wrote behind its window arguments.
 var c17SpareDamage string
 
-var c17Types = []string{"int8", "int16", "int32", "int64", "int", "uint8", "uint16", "uint32", "uint64", "big", "bytes", "ip", "mac"}
+var c17Types = []string{"int8", "int16", "int32", "int64", "int", "uint8", "uint16", "uint32", "uint64", "big", "bytes", "ip", "mac", "uint", "uintptr", "named-int16", "named-bytes"}
+
+// types of the caller's own that satisfy the builder's constraints (~int16, ~[]byte)
+type c17Int16 int16
+type c17Bytes []byte
 
 // c17Make builds a value of type vt holding v, or ok=false if the type cannot hold it.
 func c17Make(vt string, v *big.Int) (val any, ok bool) {
@@ -303,6 +315,22 @@ func c17Make(vt string, v *big.Int) (val any, ok bool) {
 		if fitsU(64) {
 			return v.Uint64(), true
 		}
+	case "uint":
+		if fitsU(64) {
+			return uint(v.Uint64()), true
+		}
+	case "uintptr":
+		if fitsU(64) {
+			return uintptr(v.Uint64()), true
+		}
+	case "named-int16":
+		if fitsS(16) {
+			return c17Int16(v.Int64()), true
+		}
+	case "named-bytes":
+		if v.Sign() >= 0 {
+			return c17Bytes(v.Bytes()), true
+		}
 	case "big":
 		return new(big.Int).Set(v), true
 	case "bytes":
@@ -339,6 +367,8 @@ func c17Snapshot(v any) string {
 		return x.String()
 	case []byte:
 		return fmt.Sprintf("%x", x)
+	case c17Bytes:
+		return fmt.Sprintf("%x", []byte(x))
 	case net.IP:
 		return fmt.Sprintf("%x", []byte(x))
 	case net.HardwareAddr:
